@@ -14,7 +14,7 @@
     `hg_any_pattern`: an `.hgignore` ignores what any of its patterns matches;
   * `option_table`: option on → rules apply, `no…` → they do not, neither → the configuration default (absent:
     off);
-  * `verdict_from_canonical_path`: the verdict depends on the entry only through its canonical path (and git's
+  * `verdict_from_own_location`, `link_judged_by_its_own_name`: the verdict depends on the entry only through the canonical path of its directory plus its name (and git's
     own verdict), hence not on how the root was spelled.
   Not theorems: that the compiled patterns mean what the tools mean (glob → regex conversion against
   Mercurial's and Docker's matchers, libgit2 against git): decided on every run by the oracles (`git
@@ -179,12 +179,20 @@ theorem option_table (c : Option Bool) (b : Bool) :
     ignoreApplies none (some b) = b ∧ ignoreApplies none none = false := by
   simp [ignoreApplies]
 
-/-- the verdict depends on the entry only through its canonical path and git's own verdict — not on the
-    spelling of the root -/
-theorem verdict_from_canonical_path (ig : IgnoreSet) (e e' : Entry) (c : Str)
-    (h1 : e.absPath = some c) (h2 : e'.absPath = some c) (hg : e.gitIgnored = e'.gitIgnored) :
+/-- the verdict depends on the entry only through its own location — the canonical path of its directory
+    and its name — and git's own verdict: not on the spelling of the root, and (D78 fix) not on what a
+    symbolic link points to -/
+theorem verdict_from_own_location (ig : IgnoreSet) (e e' : Entry) (d : Str)
+    (h1 : e.absDir = some d) (h2 : e'.absDir = some d) (hn : e.name = e'.name) (hg : e.gitIgnored = e'.gitIgnored) :
     ig.ignored e = ig.ignored e' := by
-  simp [IgnoreSet.ignored, h1, h2, hg]
+  simp [IgnoreSet.ignored, h1, h2, hn, hg]
+
+/-- a symbolic link is judged like any other entry of that name in that directory: the target (the link's
+    canonical path `absPath`, its kind, its link text) plays no part -/
+theorem link_judged_by_its_own_name (ig : IgnoreSet) (dirPath dirCanon : Str) (e : Entry) (t : Option Str) (k : Char) (lt : Option Str) :
+    ig.ignored (fillEntry { e with absPath := t, kind := k, linkTarget := lt } dirPath dirCanon t) =
+    ig.ignored (fillEntry e dirPath dirCanon e.absPath) := by
+  simp [IgnoreSet.ignored, fillEntry]
 
 /-- non-vacuity: a rule set that ignores something and keeps something -/
 example :
